@@ -47,6 +47,18 @@ def search(ctx, N):
             if ctx.violation('shape', 'Derivative returns shape %r for x of shape %r' % (np.shape(v), shape), desc):
                 return
             continue
+        # memory layout must not matter: Fortran-ordered copy, transposed view of the transposed data, strided view
+        if len(shape) >= 2 and sum(1 for t in shape if t > 1) >= 2:
+            big = np.zeros(tuple(2 * t for t in shape))
+            sl = tuple(slice(None, None, 2) for _ in shape)
+            big[sl] = x
+            for lname, xv in (('Fortran-ordered', np.asfortranarray(x)), ('transposed view', np.ascontiguousarray(x.T).T), ('strided view', big[sl])):
+                vv, _ = d(xv)
+                ctx.count(1, ('search', 'layout', lname))
+                if np.shape(vv) != tuple(shape) or [float(t).hex() for t in np.ravel(vv)] != [float(t).hex() for t in np.ravel(v)]:
+                    if ctx.violation('layout:%s' % lname.split()[0], 'Derivative(%s, n=%d, order=%d, method=%r): a %s array x with the same elements gives a different result (max difference %.3g)' % (
+                            fname, n, order, method, lname, float(np.max(np.abs(np.asarray(vv) - np.asarray(v)))) if np.shape(vv) == tuple(shape) else float('nan')), dict(desc, layout=lname)):
+                        return
         pos = tuple(int(rng.integers(0, s)) for s in shape)
         x2 = rand_x(rng, shape)
         x2[pos] = x[pos]
